@@ -22,6 +22,7 @@ import ast
 import os
 import sys
 
+import pynorm
 from py2coq_arith import Unsupported
 
 LOGARGS = ["order_id", "market_id", "time", "agent_id", "is_buy", "kind", "volume", "price", "ttl"]
@@ -65,6 +66,14 @@ class A:
                 and e.comparators[0].value is None and ast.unparse(e.left) in ("order.placed_at", "order.order_id")):
             ty, term = self.cur[ast.unparse(e.left)]
             return (f"(negb (is_none {term}))" if ty == "OZ" else "true"), {"ValueError": "EAlreadySubmitted"}
+        if isinstance(e, ast.BoolOp) and isinstance(e.op, ast.Or):
+            parts = [self.cond(v) for v in e.values]
+            if any(k != parts[0][1] for _c, k in parts):
+                raise Unsupported("condition " + t[:80])
+            acc = parts[-1][0]
+            for c, _k in reversed(parts[:-1]):
+                acc = f"(orb {c} {acc})"
+            return acc, parts[0][1]
         raise Unsupported("condition " + t[:80])
 
     def order_term(self, f):
@@ -100,7 +109,7 @@ def translate(repo):
     a = fs[0].args
     if [x.arg for x in a.args] != ["self", "order"] or a.vararg or a.kwarg or a.kwonlyargs or a.defaults:
         raise Unsupported("signature of _add_order")
-    body = [s for s in fs[0].body if not (isinstance(s, ast.Expr) and isinstance(s.value, ast.Constant) and isinstance(s.value.value, str))]
+    body = pynorm.normalise(fs[0], cs[0], returns_none=False)
     x = A()
     lines, logvar, reported, returned, added = [], None, 0, False, False
     for s in body:
